@@ -19,14 +19,14 @@ RULE = ("1-3 models, each with a plain Environment or a SpaceWorld / DiscreteWor
         "models; in ~15% of runs also attach / detach while resident with or without manual (de)registration; "
         "non-trivial = >=2 component types in use, >=1 agent left while another agent with one of its types stayed, and "
         ">=1 re-join; distinct = sequence of (model, op, per-type listing sizes)"
-        "; also: models stepped / completed in mid-history, worlds that are not model.environment, a container-like component that is falsy while empty, joins / leaves / re-joins issued by a System from inside a running timestep, agents that are environments themselves")
+        "; also: models stepped / completed in mid-history, worlds that are not model.environment, a container-like component that is falsy while empty, joins / leaves / re-joins issued by a System from inside a running timestep, agents that are environments themselves, agents whose class has class components of the same types")
 COMPONENTS = {"real": ["ECAgent.Core.Environment.add_agent / remove_agent", "SystemManager.register_component / "
                        "deregister_component / get_components / __getitem__", "Agent.add_component / remove_component",
                        "SpaceWorld / DiscreteWorld / LineWorld / GridWorld add_agent / remove_agent"],
               "stub": ["component classes and agents are harness-defined"]}
 PROBES = ["pool_deleted_and_recreated", "leave_from_middle", "two_models_same_type", "spatial_join_leave", "rejoin",
           "attach_after_leaving", "subclass_component", "resident_touch_run", "manual_register", "reject_join", "reject_leave",
-          "model_completed_then_join_leave", "falsy_component_emptied", "ops_from_inside_a_timestep", "agent_is_an_environment"]
+          "model_completed_then_join_leave", "falsy_component_emptied", "ops_from_inside_a_timestep", "agent_is_an_environment", "agent_class_with_class_components"]
 TECHNIQUE = "deterministic simulation: seeded join/leave/attach/detach histories interleaved over several live models vs a per-model mirror reference; known-finding classifier for resident attach/detach"
 LEVEL_TEXT = ("Seeded search over join/leave/attach/detach histories on 1-3 live models; after every operation, for every "
               "component type and every model, the exposed listing must be element-wise identical (objects, joining order) to "
@@ -72,6 +72,11 @@ class CF(Component):
 
 
 CT = [CA, CB, CC, CD, CE, CF]
+
+
+class Wolf(Agent):
+    """An agent class that has CLASS components of types its instances may also carry themselves: what an agent brings
+    into the model's listings are its own components, never its class's."""
 INSTEP_OPS = ("join", "leave", "query", "join_dup", "leave_ghost", "fill")
 
 
@@ -144,16 +149,24 @@ def generate(rng, tier):
             for k in range(nag[mi]):
                 if rng.random() < 0.3:
                     envagents.append([mi, k, rng.choice([0, 0, 1])])
-    return {"worlds": worlds, "agents": nag, "touch": touch, "ops": ops, "envagents": envagents}
+    wolves = []
+    if rng.random() < 0.2:
+        for mi in range(nm):
+            for k in range(nag[mi]):
+                if rng.random() < 0.4 and [mi, k] not in [e[:2] for e in envagents]:
+                    wolves.append([mi, k])
+    return {"worlds": worlds, "agents": nag, "touch": touch, "ops": ops, "envagents": envagents, "wolves": wolves}
 
 
 class M:
-    def __init__(self, spec, n, idx, envagents=()):
+    def __init__(self, spec, n, idx, envagents=(), wolves=()):
         self.model = Model(seed=20260927)
         self.ref = RefWorld(spec)
         self.env = make_world(self.model, spec)
         nested = {k % n: inner for mi, k, inner in envagents if mi == idx}
-        self.agents = [Environment(self.model, id=f"m{idx}a{k}") if k in nested else Agent(f"m{idx}a{k}", self.model) for k in range(n)]
+        wolf = {k % n for mi, k in wolves if mi == idx}
+        self.agents = [Environment(self.model, id=f"m{idx}a{k}") if k in nested else
+                       (Wolf if k in wolf else Agent)(f"m{idx}a{k}", self.model) for k in range(n)]
         for k, inner in nested.items():
             for j in range(inner):           # component-less inhabitants of the nested environment
                 self.agents[k].add_agent(Agent(f"m{idx}a{k}.in{j}", self.model))
@@ -163,9 +176,14 @@ class M:
 
 
 def execute(sc, ctx):
-    models = [M(w, max(1, n), i, sc.get("envagents", ())) for i, (w, n) in enumerate(zip(sc["worlds"], sc["agents"]))]
+    models = [M(w, max(1, n), i, sc.get("envagents", ()), sc.get("wolves", ())) for i, (w, n) in enumerate(zip(sc["worlds"], sc["agents"]))]
     if not models:
         return
+    if sc.get("wolves"):
+        ctx.probe("agent_class_with_class_components")
+        for T in (CA, CB, CF):
+            if not Wolf.has_class_component(T):
+                Wolf.add_class_component(T(Wolf, models[0].model))
     if sc.get("envagents"):
         ctx.probe("agent_is_an_environment")
     touch = bool(sc.get("touch"))
